@@ -40,6 +40,7 @@ pub fn generate(prop: &str, tier: &str, seed: u64, outdir: &str) {
         "C14" => gen_c14(&mut out, &mut rng, thorough),
         "C07" => gen_c07(&mut out, &mut rng, thorough),
         "C11" => gen_c11(&mut out, &mut rng, thorough),
+        "C01" | "C03" | "C04" | "C05" | "C06" | "C08" | "C10" | "C12" | "C20" => gen_hist_prop(prop, &mut out, &mut rng, thorough),
         _ => {
             eprintln!("no generator for {prop}");
             std::process::exit(2);
@@ -726,5 +727,36 @@ fn gen_c11(out: &mut Out, rng: &mut Rng, thorough: bool) {
         out.req("codec_random", format!("sn_valid {h} {}", rng.below(2)));
         out.req("codec_random", format!("sn_encode {h} {}", rng.below(2)));
         out.req("codec_random", format!("sn_decode {h}"));
+    }
+}
+
+// ------------------------------------------------------------------------------------
+// state-machine properties: histories
+
+fn gen_hist_prop(prop: &str, out: &mut Out, rng: &mut Rng, thorough: bool) {
+    use crate::hist::*;
+    let mut cfg = HistCfg {
+        sessions: if thorough { 20000 } else { 800 },
+        max_steps: if thorough { 40 } else { 20 },
+        non_ascii: true, streams: true, summary: true, invalid: true, key_updates: true,
+        reopen: true, raw: true, selects: true,
+    };
+    match prop {
+        "C03" | "C05" => {
+            gen_exhaustive(out, if thorough { 4 } else { 3 }, thorough);
+            cfg.streams = false;
+            cfg.summary = false;
+            cfg.raw = false;
+        }
+        "C04" => {
+            cfg.raw = false;
+        }
+        "C08" => {
+            cfg.summary = false;
+        }
+        _ => {}
+    }
+    for _ in 0..cfg.sessions {
+        gen_session(out, rng, &cfg);
     }
 }
